@@ -197,6 +197,11 @@ func (pkg *pkg) Add(call *call) (string, error) {
 			continue
 		}
 		generator := pkg.generators[p.Name()]
+		for i, arg := range call.Args {
+			if basic, ok := arg.(*types.Basic); ok && basic.Kind() == types.UntypedNil {
+				return "", fmt.Errorf("Add Error: %s: %s, argument %d is an untyped nil, which has no type to generate a function for", p.Name(), call.Name, i+1)
+			}
+		}
 		name, err := generator.Add(call.Name, call.Args)
 		if err != nil {
 			return "", fmt.Errorf("Add Error: %s: %v", p.Name(), err)
